@@ -135,7 +135,7 @@ def check_C03(ctx):
     ctx.cov["distribution"] = hist
     import checks_fol
     checks_fol.c03_fol_part(ctx)
-    ctx.assumptions.append("proved for And/Or/Implies (every arity, weights >= 0, any bias, alpha = 1): not tighter, connective interval exact, every positively weighted operand interval exact, contradiction when infeasible. Not proved: zero-weight operands keep their interval (oracle only)")
+    ctx.assumptions.append("proved for And/Or/Implies (every arity, weights >= 0, any bias, alpha = 1): not tighter, connective interval exact, every operand interval exact (zero-weight operands included), contradiction when infeasible")
     return ctx.finish("proof", pr, st, rule="single connective (And/Or arity 2-4, Implies), alpha = 1, unit or weighted parameters (weights incl. 0, bias 1/2..2), bounds on the 1/8 grid / classical / absent for the connective and every operand; "
                       "ops = connective.upward(); connective.downward(); monitor: an independent exact interval-arithmetic oracle computes the hull of the feasible set (or its emptiness) and demands equality for the connective and for every operand, "
                       "and a crossed bound somewhere when the feasible set is empty; first-order part: one And/Or/Implies over 2-3 predicates with different variable tuples (join path), complete fact tables over 2-3 constants with 0/10/25% crossed rows, facts on the connective; upward then downward(all / one operand); monitor: every operand row = old bounds met with the inverse of every non-contradictory grounding reading it (two-sided; groundings with a crossed bound or a not-yet-existing operand row may or may not contribute)")
